@@ -2,7 +2,7 @@
 traits they implement), never through private names, line numbers or text."""
 import re
 
-from .mir import Unverifiable, callee_is, op_fn
+from .mir import const_str, Unverifiable, callee_is, op_fn
 
 
 def _is_derive_clone(b):
@@ -494,6 +494,49 @@ def check_all_builder_setters(F, R, only=None, floor=1):
     n += check_builder_setters(F, R, "cucumber::Cucumber", forward_to={"parser", "runner", "writer"}, only=only)
     R.floor(floor)
     return n
+
+
+CLI_SURFACE = {
+    # ADT: {field: long flag}  — the flags the properties name (C06 `--concurrency`, C08 `--fail-fast`, C15 `--name` / `--tags`,
+    # C18 `--retry` / `--retry-after` / `--retry-tag-filter`)
+    "runner::basic::Cli": {"concurrency": "concurrency", "fail_fast": "fail-fast", "retry": "retry", "retry_after": "retry-after", "retry_tag_filter": "retry-tag-filter"},
+    "cli::Opts": {"re_filter": "name", "tags_filter": "tags"},
+}
+
+
+def check_cli_surface(F, R, adt, only=None, inst="cli-flag"):
+    """The clap derive expansion of `adt` (read from MIR, like any other code): every field listed for it is declared as an argument
+    with the documented long flag, and `FromArgMatches` fills the field from the argument of that very id — two derive-generated
+    sites (`augment_args`, `from_arg_matches_mut`) that a wrong `#[arg(id = .., long = ..)]` attribute breaks silently."""
+    from . import analysis as A
+    want = {f: l for f, l in CLI_SURFACE[adt].items() if not only or re.search(only, f)}
+    aug = [b for b in F.crate_bodies() if (b.impl or {}).get("trait") == "clap::Args" and (b.impl or {}).get("self_adt") == adt and b.name.endswith("::augment_args")]
+    frm = [b for b in F.crate_bodies() if (b.impl or {}).get("trait") == "clap::FromArgMatches" and (b.impl or {}).get("self_adt") == adt and b.name.endswith("::from_arg_matches_mut")]
+    if len(aug) != 1 or len(frm) != 1:
+        raise Unverifiable(f"clap derive of {adt}: augment_args x{len(aug)}, from_arg_matches_mut x{len(frm)}")
+    a, fb = aug[0], frm[0]
+    # declared arguments: id -> long
+    longs = {}
+    for s_, t in a.calls(lambda t: callee_is(t, r"clap::Arg::long$", r"Arg::long$")):
+        nm = const_str(t["args"][1]) if len(t["args"]) > 1 else None
+        sl = A.slice_back(a, [t["args"][0]])
+        ids = [const_str(x) for _, ct in sl.calls if callee_is(ct, r"Arg::new$") for x in ct["args"] if const_str(x)]
+        if nm and len(ids) == 1:
+            longs[ids[0]] = nm
+    # field <- id read back
+    reads = {}
+    for s_, st in fb.assigns(lambda st: st["rv"]["k"] == "agg" and st["rv"].get("adt") == adt):
+        for fname, op in zip(st["rv"]["fields"], st["rv"]["ops"]):
+            sl = A.slice_back(fb, [op])
+            reads_matches = any(callee_is(ct, r"ArgMatches::(remove_one|remove_many|get_one|get_many|get_flag|remove_occurrences|try_remove_one|try_remove_many)$") for _, ct in sl.calls)
+            ids = sorted({A.const_str(c) for c in sl.consts if A.const_str(c) is not None and A.const_str(c) in longs}) if reads_matches else []
+            reads[fname] = ids
+    for f, l in sorted(want.items()):
+        ids = reads.get(f)
+        ok = ids is not None and len(ids) == 1 and longs.get(ids[0]) == l
+        R.check(ok, f"{inst}/{adt.rsplit('::', 2)[-2]}::{f}", a, f"--{l} -> `{f}`",
+                f"`{adt}.{f}` is filled from argument id(s) {ids} whose long flag is {[longs.get(i) for i in (ids or [])]} (expected one argument with `--{l}`)")
+    return len(want)
 
 
 def check_builders_keep_cli(F, R, inst="builder-keeps-cli"):
